@@ -144,7 +144,13 @@ def main(argv=None):
         st = util.Streams(a.seed, a.prop, i)
         if P.shard is not None:
             case = P.gen(st, i, a.tier, op=a.op) if a.op else P.gen(st, i, a.tier)
-            if util.derive_seed("shard", P.shard(case)) % a.nworkers != a.worker:
+            sh = P.shard(case)
+            owner = None
+            if P.assignment is not None and not a.op:
+                owner = P.assignment(a.nworkers, a.tier).get(sh)
+            if owner is None:
+                owner = util.derive_seed("shard", sh) % a.nworkers
+            if owner != a.worker:
                 continue
         else:
             if (i % a.nworkers if a.op else P.owner(i, a.nworkers)) != a.worker:
